@@ -88,40 +88,51 @@ def scan_forbidden():
     return hits
 
 
+def proof_modules(pid):
+    """Props/<pid>.lean and its continuation files Props/<pid>[A-Z]*.lean (e.g. Props/C06Trace.lean)"""
+    import glob
+    out = [pid]
+    for p in sorted(glob.glob(os.path.join(LEAN, "Props", pid + "[A-Z]*.lean"))):
+        out.append(os.path.basename(p)[:-5])
+    return out
+
+
 def proof_audit(pid):
-    """builds Props.<pid>, prints the axioms of every theorem in it; returns a dict"""
-    path = os.path.join(LEAN, "Props", pid + ".lean")
+    """builds the property's theorem modules, prints the axioms of every theorem in them; returns a dict"""
     res = {"module": "Props." + pid, "theorems": [], "obligations": 0, "discharged": 0, "failed": [], "axioms": {}}
-    if not os.path.exists(path):
-        res["failed"].append("missing " + path)
+    mods = proof_modules(pid)
+    if not os.path.exists(os.path.join(LEAN, "Props", pid + ".lean")):
+        res["failed"].append("missing Props/%s.lean" % pid)
         return res
-    ok, log = build_lean(["Props." + pid])
+    ok, log = build_lean(["Props." + m for m in mods])
     if not ok:
-        res["failed"].append("lake build Props.%s failed: %s" % (pid, log[-1500:]))
-    src = strip_comments(open(path).read())
-    ns = re.findall(r"^namespace\s+(\S+)", src, re.M)
-    prefix = (ns[0] + ".") if ns else ""
-    names = re.findall(r"^(?:protected\s+|private\s+)?theorem\s+([^\s:({\[]+)", src, re.M)
-    res["theorems"] = names
-    res["obligations"] = len(names)
-    if not ok or not names:
-        if not names:
-            res["failed"].append("no theorem in " + path)
+        res["failed"].append("lake build %s failed: %s" % (" ".join("Props." + m for m in mods), log[-1500:]))
+    full_names = []
+    for m in mods:
+        src = strip_comments(open(os.path.join(LEAN, "Props", m + ".lean")).read())
+        ns = re.findall(r"^namespace\s+(\S+)", src, re.M)
+        prefix = (ns[0] + ".") if ns else ""
+        for n in re.findall(r"^(?:protected\s+|private\s+)?theorem\s+([^\s:({\[]+)", src, re.M):
+            full_names.append((n, prefix + n))
+    res["theorems"] = [n for n, _ in full_names]
+    res["obligations"] = len(full_names)
+    if not ok or not full_names:
+        if not full_names:
+            res["failed"].append("no theorem in Props/%s.lean" % pid)
         return res
     audit = os.path.join(BUILD, "audit_%s.lean" % pid)
     with open(audit, "w") as f:
-        f.write("import Props.%s\n" % pid)
-        for n in names:
-            f.write("#print axioms %s%s\n" % (prefix, n))
+        for m in mods:
+            f.write("import Props.%s\n" % m)
+        for _, full in full_names:
+            f.write("#print axioms %s\n" % full)
     rc, out, err = sh(["lake", "env", "lean", audit], cwd=LEAN, timeout=1800)
     text = out + err
-    cur = None
     for m in re.finditer(r"'([^']+)' (depends on axioms: \[([^\]]*)\]|does not depend on any axioms)", text):
         name = m.group(1)
         axs = [a.strip() for a in (m.group(3) or "").replace("\n", " ").split(",") if a.strip()]
         res["axioms"][name] = axs
-    for n in names:
-        full = prefix + n
+    for n, full in full_names:
         if full not in res["axioms"]:
             res["failed"].append("no axiom report for " + full)
         elif not set(res["axioms"][full]) <= ALLOWED_AXIOMS:
@@ -135,8 +146,12 @@ def proof_audit(pid):
 
 
 def leanchecker(pid):
-    rc, out, err = sh(["lake", "env", "leanchecker", "Props." + pid], cwd=LEAN, timeout=3600)
-    return rc == 0, (out + err)[-2000:]
+    ok, log = True, ""
+    for m in proof_modules(pid):
+        rc, out, err = sh(["lake", "env", "leanchecker", "Props." + m], cwd=LEAN, timeout=3600)
+        ok = ok and rc == 0
+        log += (out + err)[-1000:]
+    return ok, log[-2000:]
 
 
 def case_hash(obj):
